@@ -137,7 +137,8 @@ func c15Gen(sc sigCase) func(g *Gen, id string) []HarnessSrc {
 				nps = append(nps, fmt.Sprintf("a%d %s", i, p.T.Expr()))
 				caps = append(caps, fmt.Sprintf("\tc15arg%s_%d = a%d\n", id, i, i))
 			}
-			fmt.Fprintf(&decl, "var c15fn%s func(%s)%s = func(%s)%s {\n\tc15calls%s++\n%s", id, strings.Join(ps, ", "), resSig, strings.Join(nps, ", "), resSig, id, strings.Join(caps, ""))
+			// (assigned in the harness prologue: package-level initialisers are not run by the engine)
+			fmt.Fprintf(&decl, "var c15fn%s func(%s)%s\n\nfunc c15impl%s(%s)%s {\n\tc15calls%s++\n%s", id, strings.Join(ps, ", "), resSig, id, strings.Join(nps, ", "), resSig, id, strings.Join(caps, ""))
 			if len(rets) > 0 {
 				fmt.Fprintf(&decl, "\treturn %s\n", strings.Join(rets, ", "))
 			}
@@ -153,6 +154,9 @@ func c15Gen(sc sigCase) func(g *Gen, id string) []HarnessSrc {
 		// common prologue: arbitrary results and arguments
 		var pro strings.Builder
 		fmt.Fprintf(&pro, "\tc15calls%s = 0\n", id)
+		if unnamed {
+			fmt.Fprintf(&pro, "\tc15fn%s = c15impl%s\n", id, id)
+		}
 		for i, r := range sc.Results {
 			fmt.Fprintf(&pro, "\tc15res%s_%d = %s\n", id, i, nd(r, fmt.Sprintf("res%d", i)))
 		}
